@@ -1354,6 +1354,7 @@ func (gs *GossipSubRouter) pxConnect(peers []*pb.PeerInfo) {
 
 func (gs *GossipSubRouter) connector() {
 	for {
+		verifYieldConn(gs, verifConnectTake)
 		select {
 		case ci := <-gs.connect:
 			if gs.p.host.Network().Connectedness(ci.p) == network.Connected {
